@@ -68,6 +68,12 @@ Proof. exact events_cover_parent. Qed.
 Theorem C12_code_path_of_entry : path_of_entry_wf path_of_entry = true.
 Proof. exact path_of_entry_as_specified. Qed.
 
+(* the built-in watcher keeps its roots as they were given to notify (which reports paths under that
+   spelling) and hands them to the handler unchanged *)
+Theorem C12_code_watcher_keeps_the_roots_as_given :
+  watch_wf AM.Gen.Watcher.FsWatcherBuilder_watch = true /\ build_wf AM.Gen.Watcher.FsWatcherBuilder_build = true.
+Proof. exact watcher_keeps_the_roots_as_given. Qed.
+
 Example C12_nonvacuous :
   id_of_path true [CNormal "r"] (path_of [CNormal "r"] (EFile ["d"; "a"] "x")) false = Some (EFile ["d"; "a"] "x")
   /\ path_of [CNormal "r"] (EFile ["d"; "a"] "x") = [CNormal "r"; CNormal "d"; CNormal "a.x"].
